@@ -35,6 +35,7 @@ LEVEL = {
                    "history-level argument needs state exploration).",
     "technique": "static analysis: dominance of liveness/key tests, invalidate-before-await, comparison discipline",
 }
+LEVEL["decided"] += ' The cursor is a single slot (a pulled item is assigned, never accumulated); (R16.7) the default key function is an asynchronous library function used unwrapped.'
 
 KEY_NAMES = {"_target_key", "current_key", "target_key"}
 
